@@ -26,6 +26,61 @@ SPECS = {
         'theorems': ['IblVerif.Tie.C17.firstlast_eq', 'IblVerif.Tie.C17.firstlast_valid_eq', 'IblVerif.Tie.C17.nwin_eq'],
         'covers': 'WindowGenerator.firstlast (loop), firstlast_valid (per-window trimming), nwin (count formula)',
     },
+    'C03': {
+        'items': [
+            {'name': 'conv_ind2save', 'module': 'neuropixel.py', 'function': 'NP2Converter._ind2save', 'kind': 'block',
+             'outputs': ['ind2save[0]', 'ind2save[1]'], 'value': 'Int × Int',
+             'params': ['self_samples_taper', 'self_samples_window', 'ratio', 'wg_iw', 'wg_nwin']},
+            {'name': 'conv_ratio', 'module': 'neuropixel.py', 'function': 'NP2Converter.init_params', 'kind': 'expr', 'target': 'self_ratio'},
+            {'name': 'conv_taper', 'module': 'neuropixel.py', 'function': 'NP2Converter.init_params', 'kind': 'expr', 'target': 'self_samples_taper'},
+        ],
+        'theorems': ['IblVerif.Tie.C03.ind2save_eq', 'IblVerif.Tie.C03.ratio_eq', 'IblVerif.Tie.C03.taper_eq'],
+        'covers': 'NP2Converter._ind2save (kept sub-range of each window, AP path), init_params (ratio, taper)',
+    },
+    'C12': {
+        'items': [
+            {'name': 'conv_ind2save', 'module': 'neuropixel.py', 'function': 'NP2Converter._ind2save', 'kind': 'block',
+             'outputs': ['ind2save[0]', 'ind2save[1]'], 'value': 'Int × Int',
+             'params': ['self_samples_taper', 'self_samples_window', 'ratio', 'wg_iw', 'wg_nwin']},
+            {'name': 'conv_ratio', 'module': 'neuropixel.py', 'function': 'NP2Converter.init_params', 'kind': 'expr', 'target': 'self_ratio'},
+            {'name': 'conv_taper', 'module': 'neuropixel.py', 'function': 'NP2Converter.init_params', 'kind': 'expr', 'target': 'self_samples_taper'},
+        ],
+        'theorems': ['IblVerif.Tie.C12.ind2save_lf_eq', 'IblVerif.Tie.C12.params_eq'],
+        'covers': 'NP2Converter._ind2save with ratio = 12 (kept LF sub-range of each window), init_params',
+    },
+    'C18': {
+        'items': [
+            {'name': 'convolve_first', 'module': 'ibldsp/fourier.py', 'function': 'convolve', 'kind': 'expr', 'target': 'first'},
+            {'name': 'convolve_last', 'module': 'ibldsp/fourier.py', 'function': 'convolve', 'kind': 'expr', 'target': 'last'},
+        ],
+        'theorems': ['IblVerif.Tie.C18.same_first_eq', 'IblVerif.Tie.C18.same_last_eq'],
+        'covers': "fourier.convolve: crop indices of mode='same'",
+    },
+    'C13': {
+        'items': [
+            {'name': 'wfs_chunk', 'module': 'ibldsp/waveform_extraction.py', 'function': 'write_wfs_chunk', 'kind': 'block',
+             'until': 'extract_wfs_array', 'outputs': ['sample', 's0 - offset', 's1 + spike_length_samples - trough_offset'],
+             'value': 'Int × Int × Int',
+             'params': ['sr_sl_0', 'sr_sl_1', 'i_chunk', 'trough_offset', 'wf_flat_sample', 'chunksize_samples', 'spike_length_samples']},
+        ],
+        'theorems': ['IblVerif.Tie.C13.chunk_local_eq'],
+        'covers': 'write_wfs_chunk: chunk-local spike sample and the bounds of the snippet read for a chunk',
+    },
+    'C11': {
+        'items': [
+            {'name': 'online_ns', 'module': 'spikeglx.py', 'function': 'OnlineReader.ns', 'kind': 'fn',
+             'params': ['self_file_bin_stat_st_size', 'self_dtype_itemsize', 'self_nc']},
+            {'name': 'open_ftsec', 'module': 'spikeglx.py', 'function': 'Reader.open', 'kind': 'expr', 'target': 'ftsec',
+             'occurrence': 1, 'fraction': True, 'value': 'Int × Int', 'fractions': {'self_fs': ['fs_num', 'fs_den']},
+             'params': ['self_file_bin_stat_st_size', 'self_dtype_itemsize', 'self_nc', 'fs_num', 'fs_den']},
+            {'name': 'reader_ns', 'module': 'spikeglx.py', 'function': 'Reader.ns', 'kind': 'fn',
+             'assume': {'self.meta is None': False},
+             'fractions': {'self_meta_fileTimeSecs': ['fts_num', 'fts_den'], 'self_fs': ['fs_num', 'fs_den']},
+             'params': ['fts_num', 'fts_den', 'fs_num', 'fs_den']},
+        ],
+        'theorems': ['IblVerif.Tie.C11.online_ns_eq', 'IblVerif.Tie.C11.open_ftsec_eq', 'IblVerif.Tie.C11.ns_after_open_eq'],
+        'covers': 'OnlineReader.ns, the duration written by Reader.open on a size mismatch, Reader.ns (composition = complete frames)',
+    },
 }
 
 
